@@ -13,7 +13,7 @@
 From Coq Require Import ZArith List Bool Lia.
 From Coq.Strings Require Import Byte String.
 From TS Require Import Bytes State Prog Ops Interp Asm Builders SigSpec TimeSpec TapeLemmas BuilderSpec
-  BuilderSpecC15 TablesCheck.
+  BuilderSpecC15 BuilderSpecC15b TablesCheck.
 Import ListNotations.
 Local Open Scope nat_scope.
 
@@ -261,6 +261,60 @@ Proof.
   - left. reflexivity.
 Qed.
 
+(* ---------- second HTLC layout: keys committed by hash (proofs/BuilderSpecC15b.v) ----------
+   witness = PUSH1 sig ; PUSH1 key ; PUSH1 preimage.  [verdict_spec r P U]: r is a verdict b with b = true <-> P,
+   never out of fuel, and outside the model only if U (the PVerify oracle answered with a list of length <> 1). *)
+Theorem C15_htlc2_sha256_exact :
+  forall orc cfg, 65 <= c_max_item_size cfg -> 4 <= c_max_items cfg ->
+  forall fuel digest hr c hf sig key preimage h hk fl vals ts thr,
+  10 <= fuel ->
+  List.length key = 32 -> (List.length sig = 64 \/ List.length sig = 65) ->
+  List.length hr < 256 -> List.length hr <= c_max_item_size cfg ->
+  List.length hf < 256 -> List.length hf <= c_max_item_size cfg ->
+  2 <= List.length c <= 255 -> List.length c <= c_max_item_size cfg ->
+  List.length digest = 32 -> List.length h = 32 ->
+  List.length preimage < 256 -> List.length preimage <= c_max_item_size cfg ->
+  orc PSha256 [preimage] = OOk [h] ->
+  orc PShake256 [key; [x14]] = OOk [hk] ->
+  cache_get (init_cache cfg vals) ts_key = Some (VOne (AInt ts)) ->
+  flag_get (c_flags cfg) thr_key = Some (FVInt thr) ->
+  let c0 := init_cache cfg vals in
+  verdict_spec
+    (run_auth_scripts orc cfg fuel [htlc2_witness sig key preimage; htlc2_sha256_lock digest hr c hf fl] vals)
+    ((h = digest /\ hk = hr /\ sig_accepts orc cfg key sig (b2z fl) c0) \/
+     (h <> digest /\ ts_verdict cfg (be_to_Z c) ts thr = true /\ hk = hf /\
+      sig_accepts orc cfg key sig (b2z fl) c0))
+    ((h = digest /\ hk = hr /\ bad_arity orc key sig c0) \/
+     (h <> digest /\ ts_verdict cfg (be_to_Z c) ts thr = true /\ hk = hf /\ bad_arity orc key sig c0)).
+Proof. exact htlc2_sha256_exact. Qed.
+
+Theorem C15_htlc2_shake256_exact :
+  forall orc cfg, 65 <= c_max_item_size cfg -> 4 <= c_max_items cfg ->
+  forall fuel n digest hr c hf sig key preimage h hk fl vals ts thr,
+  10 <= fuel ->
+  List.length key = 32 -> (List.length sig = 64 \/ List.length sig = 65) ->
+  List.length hr < 256 -> List.length hr <= c_max_item_size cfg ->
+  List.length hf < 256 -> List.length hf <= c_max_item_size cfg ->
+  2 <= List.length c <= 255 -> List.length c <= c_max_item_size cfg ->
+  List.length digest < 256 -> List.length digest <= c_max_item_size cfg ->
+  List.length h <= c_max_item_size cfg ->
+  List.length preimage < 256 -> List.length preimage <= c_max_item_size cfg ->
+  orc PShake256 [preimage; [n]] = OOk [h] ->
+  orc PShake256 [key; [n]] = OOk [hk] ->
+  cache_get (init_cache cfg vals) ts_key = Some (VOne (AInt ts)) ->
+  flag_get (c_flags cfg) thr_key = Some (FVInt thr) ->
+  let c0 := init_cache cfg vals in
+  verdict_spec
+    (run_auth_scripts orc cfg fuel [htlc2_witness sig key preimage; htlc2_shake256_lock n digest hr c hf fl] vals)
+    ((h = digest /\ hk = hr /\ sig_accepts orc cfg key sig (b2z fl) c0) \/
+     (h <> digest /\ ts_verdict cfg (be_to_Z c) ts thr = true /\ hk = hf /\
+      sig_accepts orc cfg key sig (b2z fl) c0))
+    ((h = digest /\ hk = hr /\ bad_arity orc key sig c0) \/
+     (h <> digest /\ ts_verdict cfg (be_to_Z c) ts thr = true /\ hk = hf /\ bad_arity orc key sig c0)).
+Proof. exact htlc2_shake256_exact. Qed.
+
+Print Assumptions C15_htlc2_sha256_exact.
+Print Assumptions C15_htlc2_shake256_exact.
 Print Assumptions C15_ptlc_lock_bytes.
 Print Assumptions C15_htlc_sha256_lock_bytes.
 Print Assumptions C15_htlc_shake256_lock_bytes.
